@@ -149,6 +149,7 @@ type interp struct {
 	router *mux.Router // the first router created in the window
 	served *mux.Router
 	depth  int
+	litOK  int // > 0 while the arguments of a route registration are evaluated
 }
 
 func (in *interp) pos(n ast.Node) string {
@@ -611,6 +612,13 @@ func (in *interp) eval(e ast.Expr, env map[string]reflect.Value) reflect.Value {
 		in.fail(x, "binary %s", x.Op)
 	case *ast.FuncLit:
 		// only the handler signature; the body is not interpreted: reaching it is recorded
+		// ... and only where it is registered as the handler of a route (a route handler
+		// must sit behind the authentication whatever it does). A literal used as
+		// NotFoundHandler, as a middleware, ... may be perfectly harmless or not - that
+		// depends on its body, which is not interpreted: INCONCLUSIVE.
+		if in.litOK == 0 {
+			in.fail(x, "function literal outside a route registration (its body is not interpreted)")
+		}
 		ft := x.Type
 		if ft.Results == nil && ft.Params != nil && len(ft.Params.List) == 2 {
 			where := in.pos(x)
@@ -656,6 +664,13 @@ func (in *interp) call(c *ast.CallExpr, env map[string]reflect.Value) (res refle
 		in.fail(c, "call of non-function %s", exprString(in.p.fset, c.Fun))
 	}
 	ft := fn.Type()
+	if sel, ok := c.Fun.(*ast.SelectorExpr); ok && in.qualified(c.Fun) == "" {
+		switch sel.Sel.Name {
+		case "HandleFunc", "Handle", "Handler", "HandlerFunc":
+			in.litOK++
+			defer func() { in.litOK-- }()
+		}
+	}
 	var args []reflect.Value
 	for i, a := range c.Args {
 		v := in.eval(a, env)
